@@ -33,7 +33,7 @@ ENGINE = "alias"
 
 TIERS = {
     "quick": dict(scalar=dict(NSet="{1, 2}", Rich=0), cont=dict(NSet="{2}", Rich=0), record=(24, 40)),
-    "thorough": dict(scalar=dict(NSet="{1, 2}", Rich=1), cont=dict(NSet="{2}", Rich=1), record=(240, 60)),
+    "thorough": dict(scalar=dict(NSet="{1, 2}", Rich=1), cont=dict(NSet="{2}", Rich=1), record=(2400, 80)),
 }
 
 UNARY = ["Neg", "Abs", "Sqrt", "Sin", "Sinh", "Cos", "Cosh", "Tan", "Tanh", "Exp", "Log", "Log1p", "Log1pExp",
@@ -296,3 +296,31 @@ def replay(ctx, path):
         if not ok:
             _report(ctx, v["signature"], dict(d, rejected_at=bad, reason=why))
     return ctx.finish(rule="replay of one recorded violation", evaluations=1, distinct_nontrivial=1)
+
+
+MANIFEST = {
+    "engine": "alias",
+    "spec": "spec/Aliasing.tla",
+    "engine_text": "Aliasing.tla + AliasingViews.tla (contract: simultaneous assignment; scalar alias patterns over Expr.tla terms, "
+                   "container operations on views over Containers.tla), HessianUpdate.tla (mechanism: derivative update loops with "
+                   "AllocForOne/AllocForTwo), AliasingTrace.tla (trace validation); Go driver harness/cmd/alias",
+    "technique": "TLA+ contract enumerated by TLC into replay cases (every operation x every partition of receiver/operands/scratch "
+                 "into objects x object kinds; container operations on shared views), each executed aliased and non-aliased on the "
+                 "real library and compared with the TLC expectation; mechanism model checked against the contract (pre-fix variant "
+                 "refuted); recorded random aliased programs validated by a TLC trace specification",
+    "text": "TLC enumerates all alias patterns of every scalar operation (unary, binary, with scratch scalar, parametrised) over variable, "
+            "nonlinear, linear, order-0, plain and constant objects of orders 1 and 2 (differing orders included) and prints the symbolic "
+            "value/gradient/Hessian the simultaneous-assignment contract demands; likewise element-wise vector/matrix operations, MdotM, "
+            "MdotV, VdotM and Outer on the same object, distinct headers, overlapping slices, transposes and row views of shared parents. "
+            "The driver runs every case aliased and with a fresh receiver and separately built operands for Real64/Real32 and plain "
+            "floats (generic and CAPITAL methods) resp. all nine element types, dense and sparse; the aliased receiver (and every parent "
+            "cell) must meet the TLC expectation (terms evaluated within a running error bound; containers exactly) unless the API "
+            "rejects the aliasing by panic where the contract allows that. The transcribed monadic/dyadic loops are model-checked "
+            "against simultaneous assignment for c=a, c=b, c=a=b with operands of differing order. Seeded random programs with random "
+            "alias patterns over exact integer jets and over views of shared parents are recorded and accepted by the trace "
+            "specification. Bounded enumeration plus conformance; not a proof for all operand values.",
+    "note": "Trusted: TLC, CommunityModules Json, exprlib term evaluator, the Go driver's object construction and projection. "
+            "Patterns with a shared scratch scalar and reductions whose receiver is an element of the operand are information only "
+            "(docs/C08.md). Known findings carry a modelled deviation (sequential evaluation over shared cells).",
+    "design_ref": "DESIGN.md section 5 (C08), section 4 (ScalarMachine / HessianUpdate / Containers)",
+}
